@@ -4,9 +4,9 @@ from __future__ import annotations
 import ast
 import sympy as sp
 
-from ..spec import Checker, FR, obj_summary
+from ..spec import value_signature, Checker, FR, obj_summary
 from ..sigmodel import make_signal, N, SR, CF, T0
-from ..values import Num, StrV, NONE, Hz, ExtV, ObjV
+from ..values import Num, StrV, NONE, Hz, ExtV, ObjV, TupleV
 from ..extapi import NdArr
 from ..symeval import Raised
 from ..values import Unsupported
@@ -91,7 +91,9 @@ def r1(ck, prog, run):
         try:
             disp = ev.call(ga, [StrV(nm)], {})
             fr0 = Frame(ev, None, None, {}, 0)
-            kw = dict(call_kw) if nm in ("fft", "ifft", "rfft", "irfft", "hfft", "ihfft") else {}
+            # the 2-D / N-D transforms get their axes out of order: s[i] pairs with axes[i] and the last listed axis is the halved one of the
+            # real transforms, so the order is part of the request
+            kw = dict(call_kw) if nm in ("fft", "ifft", "rfft", "irfft", "hfft", "ihfft") else {"axes": TupleV([Num(1), Num(0)])}
             ref = EXT["scipy.fft." + nm](ev, [x_np], kw, fr0, None)
             r_np = ev.apply(disp, [x_np], kw, fr0)
             n_before = len([t for t in ev.trace if t[0] == "fft_wrap"])
@@ -106,7 +108,8 @@ def r1(ck, prog, run):
         ck.same("R1", where, tag + " on a NumPy array", f"is scipy.fft.{nm} applied to the caller's arguments unchanged (same name: no remapping)",
                 isinstance(r_np, Num) and r_np.expr == ref.expr and r_np.backend != "dask", found=str(r_np)[:120], expected=str(ref.expr)[:120], nontrivial=True)
         okw = len(wraps) == 1 and isinstance(wraps[0][1], ExtV) and wraps[0][1].dotted == "scipy.fft." + nm \
-            and len(wraps[0][2]) == 1 and wraps[0][2][0] is x_da and set(wraps[0][3]) == set(kw)
+            and len(wraps[0][2]) == 1 and wraps[0][2][0] is x_da and set(wraps[0][3]) == set(kw) \
+            and all(value_signature(wraps[0][3][k_]) == value_signature(kw[k_]) for k_ in kw)
         ck.same("R1", where, tag + " on a Dask array", f"is dask.array.fft.fft_wrap(scipy.fft.{nm}) applied to the caller's arguments unchanged, lazily (result stays Dask-backed)",
                 okw and isinstance(r_da, Num) and r_da.expr == ref.expr and r_da.backend == "dask",
                 found=f"wrapped: {[str(t[1]) for t in wraps]}; result {str(r_da)[:80]} backend={getattr(r_da, 'backend', None)}", nontrivial=True)
